@@ -58,6 +58,17 @@ def rule_budget(report, prog):
         report.check(cl, 'C12-R1', key(q, 'FSC clamped to what the device can send'), g.loc(), 'FSC is not limited to the device frame size')
         report.check(bool(find(g.node, 'self._dep = IsoDepInitiator(clf, fsc, fwt)')), 'C12-R1', key(q, 'ISO-DEP created with the negotiated FSC/FWT'),
                      g.loc(), 'IsoDepInitiator construction changed')
+        # every constant bound to fsci is a valid table index, and a default used when the ATS omits T0 / TB(1) is the ISO/IEC 14443-4
+        # default (FSCI 2 -> 32 byte, FWI 4): a larger default makes the reader send blocks the card cannot buffer
+        for st in walk_no_nested(g.node):
+            if isinstance(st, ast.Assign) and len(st.targets) == 1:
+                tg, val = st.targets[0], st.value
+                pairs = list(zip(tg.elts, val.elts)) if isinstance(tg, ast.Tuple) and isinstance(val, ast.Tuple) and len(tg.elts) == len(val.elts) else [(tg, val)]
+                for x, v in pairs:
+                    c = try_const(v)
+                    if norm(x) == 'fsci' and isinstance(c, int):
+                        report.check(c in (2, 8), 'C12-R1', key(q, 'constant FSCI is the protocol default 2 or the RFU clamp 8', st), g.loc(st),
+                                     'fsci is set to the constant %d: without TA/T0 in the ATS the card can only be assumed to buffer FSC 32 (FSCI 2)' % c)
         fw = find(g.node, 'fwt = 4096 / 13560000.0 * 2 ** fwti')
         report.check(len(fw) == 1, 'C12-R1', key(q, 'FWT = 4096/fc * 2^FWI'), g.loc(), 'FWT formula changed')
 
@@ -92,7 +103,7 @@ def rule_block_number(report, prog):
     report.check(set(masks) == want, 'C12-R2', key(f.qname, 'response classification masks (WTX F2h, ACK A2h, I-block 02h)'), f.loc(),
                  'response classification changed: %s' % masks)
     # response reassembly: first INF sets, chained blocks append in order
-    okk = bool(find(f.node, 'response = data[1:]')) and bool(find(f.node, 'response = response + data[1:]')) and \
+    okk = bool(find(f.node, 'response = data[1:]')) and bool(find(f.node, 'response += data[1:]')) and \
         any(isinstance(l, ast.While) and norm(l.test) == 'bool(data[0] & 16)' for l in walk_no_nested(f.node))
     report.check(okk, 'C12-R2', key(f.qname, 'chained response blocks appended in order while the chaining bit is set'), f.loc(),
                  'response reassembly changed')
@@ -244,22 +255,14 @@ MUTANTS = [
             data = pfb + command[offset:offset+self.miu]""", """            pfb = pack('B', (0x02, 0x12)[more] | self.pni)
             data = pfb + command[offset:offset+self.miu+1]""", 'C12-R1'),
     ('more-flag-ge', T4, "more = len(command) - offset > self.miu", "more = len(command) - offset >= self.miu", 'C12-R1'),
-    ('fsc-table', T4, """        fsci, fwti = rats_res[1] & 0x0F, rats_res[3] >> 4
-        if fsci > 8:
-            log.warning("FSCI with RFU value in RATS_RES")
-            fsci = 8
-        if fwti > 14:
-            log.warning("FWI with RFU value in RATS_RES")
+    ('fsc-table', T4, """            log.warning("FWI with RFU value in RATS_RES")
             fwti = 4
 
-        fsc = (16, 24, 32, 40, 48, 64, 96, 128, 256)[fsci]""", """        fsci, fwti = rats_res[1] & 0x0F, rats_res[3] >> 4
-        if fsci > 8:
-            log.warning("FSCI with RFU value in RATS_RES")
-            fsci = 8
-        if fwti > 14:
-            log.warning("FWI with RFU value in RATS_RES")
+        fsc = (16, 24, 32, 40, 48, 64, 96, 128, 256)[fsci]""", """            log.warning("FWI with RFU value in RATS_RES")
             fwti = 4
+
         fsc = (16, 24, 32, 40, 48, 64, 96, 128, 512)[fsci]""", 'C12-R1'),
+    ('ats-default-fsci', T4, "        fsci, fwti = 2, 4  # default values if T0 or TB(1) are not sent", "        fsci, fwti = 9, 4  # default values if T0 or TB(1) are not sent", 'C12-R1'),
     ('block-number-unchecked', T4, """            if data[0] & 0x01 != self.pni:
                 log.warning("ISO-DEP protocol error: block number")
                 raise Type4TagCommandError(nfc.tag.PROTOCOL_ERROR)
